@@ -197,6 +197,14 @@ func ratCeil(r *big.Rat) *big.Rat {
 	return f.Add(f, big.NewRat(1, 1))
 }
 
+// point replaces a term whose interval is a single value by that constant.
+func point(t *Term) *Term {
+	if t.Sort != SBool && t.Op != "c" && t.Lo != nil && t.Hi != nil && t.Lo.Cmp(t.Hi) == 0 {
+		return RatC(t.Sort, t.Lo)
+	}
+	return t
+}
+
 // ---- constructors with folding ----
 
 func numSortOf(a, b *Term) Sort {
@@ -343,7 +351,7 @@ func (l *linForm) build(sort Sort) *Term {
 		t.Lo, t.Hi = lo, hi
 		t.IsIntReal = isInt && sort == SReal
 	}
-	return t
+	return point(t)
 }
 
 func linCombine(sort Sort, a *Term, ca *big.Rat, b *Term, cb *big.Rat) *Term {
@@ -473,7 +481,7 @@ func EDiv(a, b *Term) *Term {
 			}
 		}
 	}
-	return t
+	return point(t)
 }
 
 // EMod is SMT-LIB mod (result in [0,|b|)).
@@ -542,7 +550,7 @@ func Ite(c, a, b *Term) *Term {
 		t.Lo, t.Hi = rmin(a.Lo, b.Lo), rmax(a.Hi, b.Hi)
 		t.IsIntReal = a.IsIntReal && b.IsIntReal
 	}
-	return t
+	return point(t)
 }
 
 // intOfReal returns the Int term i with a == to_real(i), if a has that shape.
@@ -715,7 +723,7 @@ func Floor(a *Term) *Term {
 	if t.Lo == nil && t.Hi == nil {
 		t.Lo, t.Hi = ratFloor(a.Lo), ratFloor(a.Hi)
 	}
-	return t
+	return point(t)
 }
 
 // Raw is an SMT-LIB boolean expression given as text over in_<name> variables.
